@@ -1,5 +1,6 @@
 import GSProofs.Lemmas.ConcurrentCleanRoot
 import GSProofs.Lemmas.LoaderComplete
+import GSProofs.Lemmas.LoaderReplay
 /-!
 Property C20, completeness clause of `CleanAt` — requestor side, one response item per message.
 
@@ -229,5 +230,110 @@ theorem message_item (r : Requestor.State) (n : LNode) (post : LT) (S : List (Ci
       rfl
     · obtain ⟨k1, k2⟩ := a5 m post' h
       exact ⟨k1, k2.trans o2⟩
+
+/-! ## the replay: an item of the skip window is consumed by the verifier -/
+
+/-- `PK` without the verifier clause -/
+structure PK0 (r : Requestor.State) (n : LNode) (post : LT) : Prop where
+  ph : r.phase = .running
+  ctx : r.ctxCancelled = false
+  sent : r.requestSent = true
+  todo : r.todo = n :: post
+  pend : r.L.pending = some (n.path, n.cid)
+  opn : r.L.isOpen = true
+  q : r.L.rq.q = []
+
+theorem PK.of0 {r : Requestor.State} {n : LNode} {post : LT} (h : PK0 r n post) (hv : r.L.verifierDone = true) :
+    PK r n post := ⟨h.ph, h.ctx, h.sent, h.todo, h.pend, h.opn, h.q, hv⟩
+
+theorem PK.to0 {r : Requestor.State} {n : LNode} {post : LT} (h : PK r n post) : PK0 r n post :=
+  ⟨h.ph, h.ctx, h.sent, h.todo, h.pend, h.opn, h.q⟩
+
+/-- the verifier's position in the traversal record `R`: the links of `remPre` (a suffix of the locally
+    loaded prefix) are still to be replayed; `[]` = the replay is over -/
+def VS (R : TRec) (L : Loader.State) : LT → Prop
+  | [] => L.verifierDone = true
+  | m :: pre' => TOrd R ∧ PClosed R ∧ (∃ A n, R = A ++ [n] ∧ n.link ≠ none) ∧
+      ∃ A B, L.record = R ∧ R = A ++ B ∧ linkedOf B = loadsOf (m :: pre') ∧ L.ver = some (tipOf R B)
+
+theorem waitRemote_empty_open (s : Loader.State) (f : Nat) (hq : s.rq.q = []) (ho : s.isOpen = true) :
+    waitRemote (f + 1) s = (s, .blocked) := by
+  rw [waitRemote]
+  simp [hq, ho]
+
+theorem ingest_one (L : Loader.State) (S : List (Cid × Blk)) (it : Item) (md : List (Cid × Action)) (bl : List (Cid × Blk))
+    (hbi : buildItems md bl = [it]) (hq : L.rq.q = []) (ho : L.isOpen = true) :
+    (Loader.ingest (withStore L S) md bl).rq.q = [it] ∧ (Loader.ingest (withStore L S) md bl).pending = L.pending ∧
+    (Loader.ingest (withStore L S) md bl).isOpen = true ∧ (Loader.ingest (withStore L S) md bl).record = L.record ∧
+    (Loader.ingest (withStore L S) md bl).ver = L.ver ∧ (Loader.ingest (withStore L S) md bl).store = S ∧
+    (Loader.ingest (withStore L S) md bl).unfollowed = L.unfollowed := by
+  have hmd : md.isEmpty = false := by
+    cases md with
+    | nil => simp [buildItems, buildItems.go] at hbi
+    | cons a t => rfl
+  obtain ⟨store, record, mra, unfollowed, isOpen, ver, rq, pending⟩ := L
+  obtain ⟨q, last, lastLinked, tailOn⟩ := rq
+  simp only at hq ho
+  subst hq ho
+  simp [Loader.ingest, hmd, hbi, RQ.queue, RQ.push, withStore]
+
+theorem message_replay (R : TRec)
+    (r : Requestor.State) (n : LNode) (post : LT) (S : List (Cid × Blk)) (m : LNode) (pre' : LT) (it : Item)
+    (md : List (Cid × Action)) (bl : List (Cid × Blk)) (hbi : buildItems md bl = [it]) (hp : PK0 r n post)
+    (hvs : VS R r.L (m :: pre')) (hl : it.link = m.cid) (ha : it.action = .present)
+    (o : Requestor.State × List Ev) (ho : o = message (rws r S) true true 14 md bl) :
+    o.2 = [] ∧ PK0 o.1 n post ∧ o.1.L.unfollowed = r.L.unfollowed ∧ o.1.L.store = S ∧ VS R o.1.L pre' := by
+  obtain ⟨L, todo, ph, sent, nb, us, cc, te⟩ := r
+  obtain ⟨h1, h2, h3, h4, h5, h6, h7⟩ := hp
+  simp only at h1 h2 h3 h4 h5 h6 h7 hvs
+  subst h1 h2 h3 h4
+  obtain ⟨hO, hC, hlast, A, B, hrec, hR, hlk, hver⟩ := hvs
+  obtain ⟨i1, i2, i3, i4, i5, i6, i7⟩ := ingest_one L S it md bl hbi h7 h6
+  have hlk' : linkedOf B = (m.path, (m.cid, true)) :: loadsOf pre' := hlk
+  obtain ⟨U, nm, B2, hB, hnmp, hnml, hB2⟩ := linkedOf_cons_split B _ _ _ hlk'
+  have hR2 : R = (A ++ U) ++ nm :: B2 := by rw [hR, hB]; simp
+  have hR3 : R = (A ++ U ++ [nm]) ++ B2 := by rw [hR2]; simp
+  have htip : tipOf R B = some m.path := tipOf_spec hO hC hR hlk'
+  generalize hL1 : Loader.ingest (withStore L S) md bl = L1 at i1 i2 i3 i4 i5 i6 i7
+  have hla : linkAt L1.record m.path = some (m.cid, true) := by
+    rw [i4, hrec, ← hnmp, linkAt_at hO hR2, hnml]
+  have hvs1 : L1.ver = some (some m.path) := by rw [i5, hver, htip]
+  have hstep := waitRemote_step L1 1 it [] m.path m.cid i1 hvs1 hla hl
+  obtain ⟨g1, g2, g3, g4, g5, g6, g7, g8⟩ := replayNext_fields L1 m.path it [] i1
+  generalize replayNext L1 m.path it = s1 at hstep g1 g2 g3 g4 g5 g6 g7 g8
+  have hblk := waitRemote_empty_open s1 0 g6 (g4.trans i3)
+  have hrun : Loader.run L1 n.path n.cid = ({ s1 with pending := some (n.path, n.cid) }, .blocked) := by
+    rw [run_eq_post, i1]
+    show GS.Loader.post n.path n.cid (waitRemote (1 + 1) L1) = _
+    rw [hstep, hblk]
+    rfl
+  have hwake : Loader.wake L1 = ({ s1 with pending := some (n.path, n.cid) }, none) := by
+    unfold Loader.wake
+    rw [i2, h5]
+    simp only [hrun]
+  rw [message_eq_resume, hL1] at ho
+  unfold resume at ho
+  simp only [hwake] at ho
+  subst ho
+  have hnl : nextLink R m.path true = tipOf R B2 := by rw [← hnmp]; exact nextLink_true' hO hC hR2
+  refine ⟨rfl, ⟨rfl, rfl, rfl, rfl, rfl, g4.trans i3, g6⟩, ?_, g1.trans i6, ?_⟩
+  · show s1.unfollowed = L.unfollowed
+    rw [g8, ha]
+    simp only [Action.didFollow, if_true]
+    exact i7
+  · have hv1 : s1.ver = some (tipOf R B2) := by
+      rw [g7, ha, i4, hrec]
+      simp only [Action.didFollow]
+      rw [hnl]
+    cases pre' with
+    | nil =>
+      have hB2nil : B2 = [] := linkedOf_nil_suffix hR3 hlast (by rw [hB2]; rfl)
+      rw [hB2nil] at hv1
+      show State.verifierDone _ = true
+      unfold State.verifierDone
+      simp only [hv1]
+      rfl
+    | cons m2 pre'' =>
+      exact ⟨hO, hC, hlast, A ++ U ++ [nm], B2, (g2.trans i4).trans hrec, hR3, hB2, hv1⟩
 
 end GS.C20
